@@ -17,7 +17,7 @@ open ZapVerif ZapVerif.GoMini ZapVerif.Writers ZapVerif.Gen.TransMultiWS
 def wstep (p : Bytes) (a : Nat × List Nat × List Val) (i : Nat) (y : Writers.Out × Nat) : Nat × List Nat × List Val :=
   (if i = 0 ∨ y.1.n < a.1 then y.1.n else a.1,
    if y.1.err then a.2.1 ++ [y.2] else a.2.1,
-   a.2.2 ++ [.list [sinkV y.1.n (if y.1.err then [.int y.2] else []) [], .bytes p]])
+   a.2.2 ++ [.list [traceName, sinkV y.1.n (if y.1.err then [.int y.2] else []) [], .bytes p]])
 
 /-- the fold the interpreter performs, started at position `k` -/
 def wfold (p : Bytes) (outs : List Writers.Out) (k : Nat) (s : Nat × List Nat × List Val) : Nat × List Nat × List Val :=
@@ -54,7 +54,7 @@ theorem wfold_model (p : Bytes) : ∀ (outs : List Writers.Out) (k : Nat) (a : A
 
 theorem wfold_writes (p : Bytes) : ∀ (outs : List Writers.Out) (k : Nat) (s : Nat × List Nat × List Val),
     (wfold p outs k s).2.2 = s.2.2 ++ (outs.zipIdx k).map fun q =>
-      Val.list [sinkV q.1.n (if q.1.err then [.int q.2] else []) [], .bytes p]
+      Val.list [traceName, sinkV q.1.n (if q.1.err then [.int q.2] else []) [], .bytes p]
   | [], _, _ => by simp [wfold]
   | o :: outs, k, s => by
     rw [wfold_cons, wfold_writes p outs (k + 1)]
@@ -64,7 +64,7 @@ theorem wfold_writes (p : Bytes) : ∀ (outs : List Writers.Out) (k : Nat) (s : 
 theorem wfold_multiWrite (p : Bytes) (outs : List Writers.Out) :
     (wfold p outs 0 (0, [], [])).1 = (multiWrite p outs).1 ∧
     (wfold p outs 0 (0, [], [])).2.1 = (multiWrite p outs).2 ∧
-    (wfold p outs 0 (0, [], [])).2.2 = (sinksOf outs).map fun s => Val.list [s, .bytes p] := by
+    (wfold p outs 0 (0, [], [])).2.2 = (sinksOf outs).map fun s => Val.list [traceName, s, .bytes p] := by
   have h := wfold_model p outs 0 {} (0, [], []) rfl rfl rfl
   refine ⟨?_, ?_, ?_⟩
   · simp only [multiWrite, multiRun, h.2]
